@@ -224,16 +224,27 @@ def snapshot(objs):
                     except AttributeError:
                         pass
             for nm, a in st:
-                out.append((nm, a, list(items(a))))
+                out.append((nm, a, list(items(a)), o, nm.rsplit(".", 1)[1], str(a.dtype)))
         else:
-            out.append((name, o, list(items(o))))
+            out.append((name, o, list(items(o)), None, None, str(getattr(o, "dtype", ""))))
     return out
 
 
 def check_snapshots(E, snaps, oid):
-    for name, a, before in snaps:
+    for name, a, before, owner, attr, dtype in snaps:
+        if owner is not None:
+            # the owner still holds the very array it held (not a converted / rebuilt replacement)
+            a_now = getattr(owner, attr)
+            if a_now is not a:
+                # replaced: what the caller now sees must still be the same data (type and values)
+                okr = str(a_now.dtype) == dtype and len(items(a_now)) == len(before)
+                if okr:
+                    for x, y in zip(items(a_now), before):
+                        okr = land(okr, eq_ext(x, y))
+                E.prove(okr, oid, info=name + " (array object replaced)")
+                continue
         now = items(a)
-        ok = len(now) == len(before)
+        ok = len(now) == len(before) and str(getattr(a, "dtype", "")) == dtype
         if ok:
             for x, y in zip(now, before):
                 ok = land(ok, eq_ext(x, y))
